@@ -37,3 +37,10 @@ classify = dyncommon.classify
 
 def run(tape):
     return dyncommon.run_dyn(tape, FEAT, BUG_MODELS)
+
+
+def run_case(case):
+    return dyncommon.run_dyn_case(case, BUG_MODELS)
+
+
+shrink_case = dyncommon.shrink_case
